@@ -179,6 +179,16 @@ func ruleTreeLookups(c *Ctx) {
 		f := cl.Call.StaticCallee()
 		return f != nil && f.Pkg != nil && f.Pkg.Pkg.Path() == "bytes" && f.Name() == "Equal"
 	})}, all, "the previous region is reported only when its end key equals the start key of the region holding the key (no gap)")
+	// … and it pivots on the region that holds the key (its start key), not on the probe key itself: for a key
+	// strictly inside a region the probe has no equal start key and the predecessor found would be the holder itself
+	findF := F(P.Method("server/core", "regionTree", "find"))
+	adjF := F(P.Method("server/core", "regionTree", "getAdjacentRegions"))
+	itemRegionF := P.Field("server/core", "regionItem", "region")
+	for _, ci := range callsIn(sp, false, adjF) {
+		a := callArgs(ci.Common())
+		okPivot := len(a) == 1 && isLoadOf(a[0], itemRegionF) && derivesFrom(a[0], resultOfCall(findF), 4)
+		c.Check(okPivot, rule, "pivot of the adjacent lookup in "+fnName(sp), "the region found to hold the key (find(key).region)", P.instrPos(ci), "the lookup is made around something else than the holding region")
+	}
 	// getAdjacentRegions: (previous, next) — the first result is filled by the descending walk, the second by the ascending one
 	ga := P.Method("server/core", "regionTree", "getAdjacentRegions")
 	c.saw(fnName(ga))
